@@ -45,8 +45,8 @@ class ODModel:
 
     def invariant(self, eng: Any, st: State, r: Ref) -> list:
         o = st.obj(r)
-        k = z3.String("k!od")
-        k2 = z3.String("k2!od")
+        k = z3.String("k$od")
+        k2 = z3.String("k2$od")
         mem, rank, top, n = o.get("mem"), o.get("rank"), o.get("top"), o.get("n")
         return [n >= 0,
                 z3.ForAll([k], z3.Implies(z3.Select(mem, k), z3.And(n >= 1, z3.Select(rank, k) <= top))),
@@ -116,7 +116,7 @@ class ODModel:
                     yield st1, Raised(ExcVal("KeyError"))
                     continue
                 v = V.fresh_str("victim")
-                k = z3.String("k!pop")
+                k = z3.String("k$pop")
                 mem, rank = o.get("mem"), o.get("rank")
                 if last:
                     order = z3.ForAll([k], z3.Implies(z3.Select(mem, k), z3.Select(rank, k) <= z3.Select(rank, v)))
